@@ -151,6 +151,27 @@ int main(int argc, char** argv)
 		obs("round_idem", std::fabs(y2 - y), 4 * EPS * std::fabs(y));
 		obs("round_odd", 0.0, 1.0, bits(ym) == bits(-y));
 		obs("round_mono", 0.0, 1.0, Round(x2, d) >= y * (1.0 - 4 * EPS));
+		if(i % 20 == 0)
+		{	// the Vector and Matrix overloads round entry by entry and keep the shape (any shape: wide, tall, single row or column)
+			int vr = (int)g.range(1, 5), mr = (int)g.range(1, 4), mc = (int)g.range(1, 4);
+			std::vector<double> ve(vr);
+			std::vector<std::vector<double>> me(mr, std::vector<double>(mc));
+			for(double& e : ve)
+				e = (g.coin() ? 1 : -1) * std::pow(10.0, g.uni(-30, 30)) * g.uni(1, 10);
+			for(auto& r : me)
+				for(double& e : r)
+					e = (g.coin() ? 1 : -1) * std::pow(10.0, g.uni(-30, 30)) * g.uni(1, 10);
+			intent("Round(Vector) / Round(Matrix) " + std::to_string(mr) + "x" + std::to_string(mc));
+			libphysica::Vector rv = Round(libphysica::Vector(ve), d);
+			libphysica::Matrix rm = Round(libphysica::Matrix(me), d);
+			bool same = rv.Size() == (unsigned)vr && rm.Rows() == (unsigned)mr && rm.Columns() == (unsigned)mc;
+			for(int k = 0; same && k < vr; k++)
+				same = bits(rv[k]) == bits(Round(ve[k], d));
+			for(int a = 0; same && a < mr; a++)
+				for(int b = 0; same && b < mc; b++)
+					same = rm[a].size() == (size_t)mc && bits(rm[a][b]) == bits(Round(me[a][b], d));
+			obs("round_overloads", 0.0, 1.0, same);
+		}
 	}
 	// Dawson, Erfi, Inv_Erf
 	int nd = quick ? 3000 : 60000;
